@@ -1367,12 +1367,18 @@ def rule_ueg_moment(chk, prog):
 # ----------------------------------------------------------------------------
 MUTATORS = {"append", "extend", "insert", "pop", "remove", "clear", "update", "setdefault", "sort", "reverse",
             "popitem", "fill", "resize"}
+MEMO_DECORATORS = {"lru_cache", "cache", "cached_property", "memoize", "memoized", "memoise", "memo"}
 FRESH_CALLS = {"dict", "list", "set", "sorted", "tuple", "np.array", "numpy.array", "np.zeros", "np.ones", "np.empty",
                "np.concatenate", "np.append", "np.cumsum", "copy.copy", "copy.deepcopy", "deepcopy", "np.copy"}
 
 
 def freshness(mod, helper):
     """('fresh' | 'persistent' | 'unknown', reason) for the object(s) a helper returns"""
+    for d in helper.decorator_list:
+        f = d.func if isinstance(d, ast.Call) else d
+        nm = f.attr if isinstance(f, ast.Attribute) else (f.id if isinstance(f, ast.Name) else "")
+        if nm in MEMO_DECORATORS:
+            return "persistent", "is memoised by @%s, so every call returns the same object" % pf.src(d)[:40]
     rets = [n for n in pf.walk_no_nested(helper) if isinstance(n, ast.Return) and n.value is not None]
     if not rets:
         return "unknown", "no return value"
@@ -1446,10 +1452,10 @@ def freshness(mod, helper):
 
 def rule_fresh_mutate(chk, prog):
     mod = prog.module(ST)
-    for m, cls in prog.subclasses("BaseSettings"):
-        if m.rel != ST:
-            continue
-        for fn in pf.methods(cls).values():
+    units = [(cls, fn) for m, cls in prog.subclasses("BaseSettings") if m.rel == ST for fn in pf.methods(cls).values()]
+    units += [(None, fn) for fn in mod.functions.values()]
+    for cls, fn in units:
+        if True:
             # locals bound to the result of a helper of the same object (method call, super() call, property)
             src = {}
             for n in pf.walk_no_nested(fn):
@@ -1457,17 +1463,22 @@ def rule_fresh_mutate(chk, prog):
                     continue
                 v = n.value
                 helper = None
-                if isinstance(v, ast.Call) and isinstance(v.func, ast.Attribute):
+                if isinstance(v, ast.Call) and isinstance(v.func, ast.Name) and v.func.id in mod.functions:
+                    helper = mod.functions[v.func.id]
+                elif isinstance(v, ast.Call) and isinstance(v.func, ast.Attribute):
                     recv = v.func.value
-                    if isinstance(recv, ast.Name) and recv.id == "self":
+                    if isinstance(recv, ast.Name) and recv.id in ("self", "cls") and cls is not None:
                         r = prog.find_method(mod, cls, v.func.attr)
                         helper = r[2] if r else None
-                    elif isinstance(recv, ast.Call) and pf.call_name(recv) == "super":
+                    elif isinstance(recv, ast.Name) and recv.id in mod.classes:
+                        r = prog.find_method(mod, mod.classes[recv.id], v.func.attr)
+                        helper = r[2] if r else None
+                    elif isinstance(recv, ast.Call) and pf.call_name(recv) == "super" and cls is not None:
                         for m2, c2 in prog.mro(mod, cls)[1:]:
                             if v.func.attr in pf.methods(c2):
                                 helper = pf.methods(c2)[v.func.attr]
                                 break
-                elif isinstance(v, ast.Attribute):
+                elif isinstance(v, ast.Attribute) and cls is not None:
                     recv = v.value
                     cands = []
                     if isinstance(recv, ast.Name) and recv.id == "self":
@@ -1495,11 +1506,15 @@ def rule_fresh_mutate(chk, prog):
                 elif isinstance(n, ast.Call) and isinstance(n.func, ast.Attribute) and n.func.attr in MUTATORS \
                         and isinstance(n.func.value, ast.Name) and n.func.value.id in src:
                     name, how = n.func.value.id, pf.src(n)
+                elif isinstance(n, ast.Call) and any(k.arg == "out" and isinstance(k.value, ast.Name) and k.value.id in src
+                                                     for k in n.keywords):
+                    name = [k.value.id for k in n.keywords if k.arg == "out"][0]
+                    how = pf.src(n)
                 if name is None:
                     continue
                 helper, bind = src[name]
                 verdict, why = freshness(mod, helper)
-                qn = "%s.%s" % (cls.name, fn.name)
+                qn = "%s.%s" % (cls.name, fn.name) if cls is not None else fn.name
                 inst = "%s mutates %s = %s (%s)" % (qn, name, pf.src(bind.value)[:50], verdict)
                 if verdict == "persistent":
                     chk.violation("fresh-mutate", ST, qn, how[:120], n.lineno,
@@ -1660,6 +1675,10 @@ def mutants(tree):
           "        inh = 1.0 if self.slmode in [\"nst\", \"npa\"] else 0.0\n",
           "        x0 = np.zeros((1, 3, 1))\n        x0[0, 0] = rho\n        x0[0, 2] = CFC * rho ** (5.0 / 3)\n"
           "        inh = float(self._get_rho_and_inh(x0)[1][0, 0])\n", expect="norm-ueg"),
+        M("SDMXFull._get_ueg_const memoised with functools.lru_cache while ueg_vector averages the table in place", ST,
+          "    def _get_ueg_const(self):\n        known_ueg_vals = [",
+          "    @staticmethod\n    @__import__(\"functools\").lru_cache(maxsize=None)\n    def _get_ueg_const():\n        known_ueg_vals = [",
+          expect="fresh-mutate"),
         M("SDMXFull usps interleaved like the normalisers (ueg_vector left alone)", ST,
           "                usps.append(3 + n)\n        for ratio in self.ratios:\n            for n, rdr in self.iterate_l1_terms(ratio):\n                usps.append(3 + n)",
           "                usps.append(3 + n)\n            for n, rdr in self.iterate_l1_terms(ratio):\n                usps.append(3 + n)",
